@@ -386,6 +386,7 @@ fn draw_svc_kind(r: &mut Rng) -> usize {
 
 /// Fits (with the forced schedule, if any), observes and checks one classifier. Returns the order log.
 fn svc_fit_check<K: K64>(kern: K, c: &mut Case, cfg: &SvcCfg, forced: Option<&Vec<Vec<usize>>>, budget: u64, tag: &str) -> Vec<Vec<usize>> {
+    let idx = c.index;
     let sg = format!("{}{}", tag, cfg.sig());
     let n = cfg.x.r;
     let xm: DM = to_dense(&cfg.x);
@@ -393,7 +394,7 @@ fn svc_fit_check<K: K64>(kern: K, c: &mut Case, cfg: &SvcCfg, forced: Option<&Ve
     let _ = svc_take_order_log();
     svc_force_orders(forced.cloned().unwrap_or_default());
     set_step_budget(budget);
-    let r = c.must("svc.fit", || SVC::fit(&xm, &cfg.y, params));
+    let r = c.must("svc.fit", || SVC::fit(&xm, &cfg.y, scverif::reused(idx, params)));
     let used = steps();
     set_step_budget(u64::MAX);
     svc_force_orders(Vec::new());
@@ -738,6 +739,7 @@ fn kkt_violation(w: f64, r: f64, cc: f64, eps: f64) -> (usize, f64) {
 }
 
 fn svr_fit_check<K: K64>(kern: K, c: &mut Case, cfg: &SvrCfg) {
+    let idx = c.index;
     let sg = cfg.sig();
     let n = cfg.x.r;
     let psd = cfg.k.psd();
@@ -751,10 +753,10 @@ fn svr_fit_check<K: K64>(kern: K, c: &mut Case, cfg: &SvrCfg) {
     c.bucket_if(psd && !decidable, "svr:termination-undecidable-zone(200·C·maxK/tol > 5e6)");
     set_step_budget(budget);
     let r = if decidable {
-        c.must("svr.fit", || SVR::fit(&xm, &cfg.y, params))
+        c.must("svr.fit", || SVR::fit(&xm, &cfg.y, scverif::reused(idx, params)))
     } else {
         // termination is only demanded for positive semi-definite kernels: a budget overrun is counted, not reported
-        match guard(|| SVR::fit(&xm, &cfg.y, params)) {
+        match guard(|| SVR::fit(&xm, &cfg.y, scverif::reused(idx, params))) {
             Ok(v) => {
                 c.count("no-panic:svr.fit");
                 Some(v)
@@ -999,6 +1001,21 @@ fn svr_long(c: &mut Case) {
     with_kernel!(&cfg.k, svr_fit_check(c, &cfg));
 }
 
+/// SVR on 1100..1600 rows with a noisy target (most rows become support vectors): beyond the ordinary bound of 80 rows
+fn svr_large(c: &mut Case) {
+    let n = c.rng.us(1100, 1600);
+    let p = c.rng.us(1, 3);
+    let rows: Vec<Vec<f64>> = (0..n).map(|_| (0..p).map(|_| c.rng.uni(-2.0, 2.0)).collect()).collect();
+    let y: Vec<f64> = rows.iter().map(|r| r.iter().map(|v| v.sin()).sum::<f64>() + c.rng.normal()).collect();
+    let fresh: Vec<Vec<f64>> = (0..3).map(|_| (0..p).map(|_| c.rng.uni(-2.0, 2.0)).collect()).collect();
+    let k = if c.rng.bool(0.5) { KSpec::Rbf(c.rng.logu(0.2, 2.0)) } else { KSpec::Linear };
+    let cfg = SvrCfg { x: Mat::from_rows(&rows), y, fresh: Mat::from_rows(&fresh), k, c: c.rng.logu(0.5, 5.0), tol: 1e-3, eps: c.rng.uni(0.05, 0.3), style: "large", dup: false, step_cap: 300_000_000 };
+    c.describe(json!({"what": "SVR fit on more than a thousand rows: feasibility, expansion, KKT", "rows": n, "features": p, "kernel": format!("{:?}", cfg.k.json()), "C": cfg.c, "eps": cfg.eps}));
+    svr_buckets(c, &cfg);
+    c.bucket("svr:large(1100..1600 rows)");
+    with_kernel!(&cfg.k, svr_fit_check(c, &cfg));
+}
+
 /// linear / polynomial SVR on data with forced (near-)duplicate rows and parameters in the zone where the
 /// step budget is assertable (C <= 10, tol >= 1e-3): termination must not depend on the sign of the
 /// rounding-noise curvature of a near-duplicate pair
@@ -1187,6 +1204,7 @@ fn main() {
             Family::new("svc_enum_n6_e1", 4000, f6 * f6, svc_enum_n6_e1).exhaustive(false, true),
             Family::new("svr", 3000, 150000, svr),
             Family::new("svr_long", 3, 12, svr_long),
+            Family::new("svr_large", 32, 480, svr_large),
             Family::new("svr_near_dup", 1500, 40000, svr_near_dup),
             Family::new("svr_not_psd", 400, 10000, svr_not_psd),
             Family::new("kernels", 3000, 80000, kernels),
